@@ -243,4 +243,58 @@ func TestC06(t *testing.T) {
 		}
 		e.Case(FPString(fmt.Sprintf("%d/%d/%d", n, ch, v)), n > 1, map[string]int{"drawn": 1}, nil)
 	})
+	// the validator list changes between heights of one instance (it is re-read at every height): the arithmetic in
+	// effect, and everything that is counted per validator, is that of the current list
+	rapid.Check(t, func(rt *rapid.T) {
+		counts := rapid.SliceOfN(rapid.OneOf(rapid.IntRange(1, 12), rapid.IntRange(1, 300)), 2, 5).Draw(rt, "counts")
+		ch := rapid.Uint32Range(0, 1<<32-8).Draw(rt, "height")
+		my := -1
+		if rapid.Bool().Draw(rt, "validator") {
+			my = 0
+		}
+		c := newC06(counts[0], my)
+		shrinks := 0
+		for k, n := range counts {
+			c.vals = allPubs[:n:n]
+			c.height = ch + uint32(k)
+			if k == 0 {
+				c.d.Start(0)
+			} else {
+				c.d.Reset(0)
+				if n < counts[k-1] {
+					shrinks++
+				}
+			}
+			d := c.d
+			bad := func(key, msg string) {
+				e.Violation(key, msg, fmt.Sprintf("counts=%v height=%d my=%d", counts, ch, my))
+				rt.Fatalf("%s", msg)
+			}
+			F := refFsearch(n)
+			if d.N() != n || d.F() != F || d.M() != n-F {
+				bad("quorum-arithmetic-after-list-change", fmt.Sprintf("validator counts %v, step %d: N()=%d F()=%d M()=%d, want %d/%d/%d", counts, k, d.N(), d.F(), d.M(), n, F, n-F))
+			}
+			for _, v := range []byte{0, 1, 2, 255} {
+				if got := d.GetPrimaryIndex(v); int(got) != refPrimaryBig(c.height+1, v, n) {
+					bad("primary-index-after-list-change", fmt.Sprintf("validator counts %v, step %d, view %d: GetPrimaryIndex=%d, want %d", counts, k, v, got, refPrimaryBig(c.height+1, v, n)))
+				}
+			}
+			if int(d.PrimaryIndex) != refPrimaryBig(c.height+1, 0, n) {
+				bad("primary-index-after-list-change", fmt.Sprintf("validator counts %v, step %d: PrimaryIndex=%d", counts, k, d.PrimaryIndex))
+			}
+			// nobody has been heard at the new height: all N validators (but the node itself) count as lost, none as committed - not more
+			// (a quorum of the current N must stay reachable: M + F = N)
+			if lost, com := d.CountFailed(), d.CountCommitted(); lost+com > n || lost < n-1 || (my < 0 && lost != n) || com != 0 {
+				bad("counted-validators-exceed-N", fmt.Sprintf("validator counts %v, step %d: at a fresh height CountFailed()=%d CountCommitted()=%d with N=%d", counts, k, lost, com, n))
+			}
+		}
+		e.Case(FPString(fmt.Sprint(counts, ch, my)), shrinks > 0, map[string]int{"list_changes": 1, "with_shrink": b2i(shrinks > 0)}, nil)
+	})
+}
+
+func b2i(b bool) int {
+	if b {
+		return 1
+	}
+	return 0
 }
